@@ -74,10 +74,21 @@ def wl_histories(ctx, rng, case):
     if not ctx.state.get("icontract"):
         raise Inconclusive("icontract unavailable")
     cfg = ck.gen_cfg(rng)
-    keys = ck.with_zero_fp_keys(ctx, rng, cfg, ck.gen_keys(rng, cfg, rng.randint(3, 12)))
+    by_rate = case.index % 8 == 3
+    if by_rate:
+        # sized by ERROR RATE, a supplied hash strategy, a crowded little table, and reloads through a file (load_error_rate) and bytes
+        cfg.by_error_rate(rng.choice([6, 9, 12, 17, 24]))
+        cfg.capacity, cfg.bucket_size = rng.choice([3, 4, 5, 8]), rng.choice([1, 2, 2])
+    keys = ck.with_zero_fp_keys(ctx, rng, cfg, ck.gen_keys(rng, cfg, rng.randint(3, 12) if not by_rate else cfg.capacity * cfg.bucket_size))
+    if by_rate and cfg.hf is None:
+        cfg.hf, cfg.hname = ck.md5_single, "hand_md5_single_value"
+        keys = [k for k in keys if cfg.raw_fp(k) != 0]
     if len(keys) < 2:
         return
     ops = ck.gen_history(rng, keys, rng.randint(4, 14), p_remove=rng.choice([0.1, 0.25, 0.4]), p_expand=0.07, p_reload=0.1)
+    if by_rate:
+        ops = [("add", k) for k in keys] + [("reload", "path"), ("add", keys[0]), ("reload", "bytes")] + ops[:6]
+        ctx.count("histories_sized_by_error_rate_with_a_supplied_hash_and_file_reloads")
     case.desc = dict(cfg.desc(), n_keys=len(keys))
     for op in ops:
         case.op(*op)
